@@ -573,6 +573,52 @@ func c06Race(c *vfCtx) {
 	}
 }
 
+// c06RaceBig: readers (and one writer at the end) of ONE shared snapshot file that is larger than the 64 KiB a
+// scanner starts with, so that every look-up goes through the code paths big files take; free-running under -race.
+func c06RaceBig(c *vfCtx) {
+	reps := 6
+	if c.thorough() {
+		reps = 30
+	}
+	const nT = 8
+	for r := 0; r < reps; r++ {
+		dir := filepath.Join(c.scratch, "e2w")
+		os.RemoveAll(dir)
+		os.MkdirAll(dir, 0o755)
+		vfResetState(false, "", true)
+		var pre []vfEntry
+		val := func(i int) string {
+			return strings.Repeat(fmt.Sprintf("line of test %d 0123456789 0123456789 0123456789\n", i), 220) + "end"
+		}
+		for i := 0; i < nT; i++ {
+			pre = append(pre, vfEntry{ID: fmt.Sprintf("TestT%d - 1", i), Body: val(i)})
+		}
+		os.WriteFile(filepath.Join(dir, "f.snap"), vfRender(pre), 0o644)
+		cfg := WithConfig(Dir(dir), Filename("f"))
+		var wg sync.WaitGroup
+		start := make(chan struct{})
+		for i := 0; i < nT; i++ {
+			wg.Add(1)
+			i := i
+			go func() {
+				defer wg.Done()
+				<-start
+				for round := 0; round < 5; round++ {
+					t := &vfT{name: fmt.Sprintf("TestT%d", i)}
+					cfg.MatchSnapshot(t, val(i))
+					if i == nT-1 && round == 4 {
+						WithConfig(Dir(dir), Filename("f"), Update(true)).MatchSnapshot(t, "second slot")
+					}
+					t.end()
+				}
+			}()
+		}
+		close(start)
+		wg.Wait()
+		c.count("race_runs", 1)
+	}
+}
+
 func init() {
 	vfRegister("C06", func(c *vfCtx, emit func(c06Case)) {
 		c.rule = "every scenario = assignment of {create, match, mismatch, update, standalone variants, Skip} to the calls of 2..3 concurrently running tests sharing one snapshot file and shared Configs; " +
@@ -582,7 +628,7 @@ func init() {
 		c.assume("shared memory is read and written only between scheduling points; unsynchronised accesses are caught by the separate free-running -race pass, not by the scheduler")
 		c06Gen(c, emit)
 	}, c06Run)
-	vfDrivers["C06"].race = c06Race
+	vfDrivers["C06"].race = func(c *vfCtx) { c06Race(c); c06RaceBig(c) }
 }
 
 // c06Base strips the value-shape suffixes of a kind.
